@@ -14,7 +14,23 @@
 //              strategy   std | alps          validation  dss | holdout   (src kinds only)
 //     noise  : seed of a heap-layout perturbation executed before anything is allocated by vita
 //              (0 = none): shakes out address-dependent behaviour
-//     mode   : - | repeat | stall-cb:<n>:<ms> | stall-eval:<n>:<ms>
+//     mode   : - | repeat[:<k>] | stall-cb:<n>:<ms> | stall-eval:<n>:<ms> | ckpt-save:<g>:<file> |
+//              ckpt-load:<paint>:<work>:<file>
+//              repeat[:<k>]        IN-PROCESS repetition: the execution (problem rebuilt from scratch, same seed) is
+//                                  performed twice in this process with OTHER WORK in between (seed k: heap noise,
+//                                  more symbols created, searches over bigger programs of every kind of individual,
+//                                  stack painted).  Opcodes are names given by a process-wide counter, so the two
+//                                  transcripts are compared in CANONICAL form (symbols by NAME, no opcode)
+//              ckpt-save:<g>:<file> (configurations without validation strategy) one run of evolution<T, ES>, then the
+//                                  same run through the harness' MIRROR of evolution::run (selection / recombination /
+//                                  replacement / after_generation of the strategy); the two transcripts must be equal
+//                                  (`MIRROR same`); after generation g population + summary + random::engine are
+//                                  saved to <file>; stdout = the uninterrupted transcript
+//              ckpt-load:<paint>:<work>:<file>  RESTART: fresh problem / evaluator / population / summary objects,
+//                                  stack painted (<paint> < 256: that byte, otherwise pseudo-random words), <work> = 1:
+//                                  other work (bigger programs) before the restore; population, summary and engine
+//                                  are loaded from <file> and the run continues; stdout = transcript of the
+//                                  generations after g
 //              stall-cb:<n>:<ms>   the n-th after_generation callback (0-based, counted over the whole
 //                                  process) sleeps <ms> milliseconds AFTER it has been recorded
 //              stall-eval:<n>:<ms> the n-th call of the fitness function sleeps <ms> ms (ga-* and de only)
@@ -33,6 +49,7 @@
 #include <map>
 #include <sstream>
 #include <thread>
+#include <type_traits>
 
 using namespace vita;
 
@@ -62,6 +79,16 @@ void heap_noise(std::uint64_t seed)
     if (r.below(2)) ::operator delete(p);
     else keep->push_back(p);
 }
+
+// ---- transcript sink ----------------------------------------------------------------------------------
+// Two forms of the same transcript: `raw` (what vita's own save() writes: symbols as OPCODES, comparable between
+// processes) and `canon` (symbols by NAME: comparable between two executions in one process, where the process-wide
+// opcode counter has renamed the symbols of the rebuilt problem).
+struct sink
+{
+  std::ostringstream raw, canon;
+  template<class X> sink &operator<<(const X &x) { raw << x; canon << x; return *this; }
+};
 
 // ---- parameters -------------------------------------------------------------------------------------
 struct params
@@ -130,7 +157,7 @@ void report_files(const params &p)
 }
 
 // the statistics files are results as well (wall-clock element aside)
-void dump_logs(std::ostream &o, const params &p)
+void dump_logs(sink &o, const params &p)
 {
   if (!p.has("logs")) return;
   for (const char *n : {"dynamic.txt", "layers.txt", "population.txt", "summary.xml"})
@@ -152,25 +179,68 @@ void dump_logs(std::ostream &o, const params &p)
 }
 
 // ---- transcript ---------------------------------------------------------------------------------------
-template<class T> void dump_dist(std::ostream &o, const char *name, const distribution<T> &d)
+
+void canon_ind(std::ostream &o, const i_mep &p)
 {
-  o << name << ' ';
-  d.save(o);
-  o << '\n';
+  o << p.age() << ' ' << p.size() << ' ' << p.categories();
+  if (p.empty()) { o << " empty\n"; return; }
+  o << " best " << p.best().index << ' ' << p.best().category << '\n';
+  for (index_t i(0); i < p.size(); ++i)
+    for (category_t c(0); c < p.categories(); ++c)
+    {
+      const gene &g(p[{i, c}]);
+      o << g.sym->name();
+      if (g.sym->terminal() && terminal::cast(g.sym)->parametric())
+        o << ' ' << verif::bits(static_cast<double>(g.par));
+      const auto arity(g.sym->arity());
+      for (auto a(decltype(arity){0}); a < arity; ++a)
+        o << ' ' << g.args[a];
+      o << '\n';
+    }
+}
+void canon_ind(std::ostream &o, const team<i_mep> &t)
+{
+  o << "TEAM " << t.individuals() << '\n';
+  for (const auto &m : t) canon_ind(o, m);
+}
+template<class T> void canon_ind(std::ostream &o, const T &x) { x.save(o); }   // i_ga, i_de: numbers only
+
+template<class T> void canon_pop(std::ostream &o, const population<T> &pop)
+{
+  o << pop.layers() << '\n';
+  for (unsigned l(0); l < pop.layers(); ++l)
+  {
+    o << pop.allowed(l) << ' ' << pop.individuals(l) << '\n';
+    for (unsigned i(0); i < pop.individuals(l); ++i) canon_ind(o, pop[{l, i}]);
+  }
+}
+
+template<class T> void dump_dist(sink &o, const char *name, const distribution<T> &d)
+{
+  std::ostringstream t;
+  d.save(t);
+  o << name << ' ' << t.str() << '\n';
+}
+
+template<class T> void dump_best(sink &o, const summary<T> &s)
+{
+  o << "BEST ";
+  s.best.solution.save(o.raw);
+  canon_ind(o.canon, s.best.solution);
+  std::ostringstream f;
+  s.best.score.fitness.save(f);
+  o << "FIT " << f.str() << " acc " << verif::bits(s.best.score.accuracy) << " sol " << s.best.score.is_solution << '\n';
 }
 
 template<class T>
-void dump(std::ostream &o, const population<T> &pop, const summary<T> &s)
+void dump(sink &o, const population<T> &pop, const summary<T> &s)
 {
   o << "GEN " << s.gen << " last_imp " << s.last_imp << " crossovers " << s.crossovers
     << " mutations " << s.mutations << " layers " << pop.layers() << '\n';
   o << "POP\n";
-  pop.save(o);
-  o << "BEST ";
-  s.best.solution.save(o);
-  o << "FIT ";
-  s.best.score.fitness.save(o);
-  o << " acc " << verif::bits(s.best.score.accuracy) << " sol " << s.best.score.is_solution << '\n';
+  pop.save(o.raw);
+  canon_pop(o.canon, pop);
+  dump_best(o, s);
   dump_dist(o, "AGE", s.az.age_dist());
   dump_dist(o, "FITD", s.az.fit_dist());
   dump_dist(o, "LEN", s.az.length_dist());
@@ -178,20 +248,20 @@ void dump(std::ostream &o, const population<T> &pop, const summary<T> &s)
     o << "LAYER " << l << " allowed " << pop.allowed(l) << " individuals " << pop.individuals(l) << '\n';
   o << "SYM";
   for (auto it(s.az.begin()); it != s.az.end(); ++it)
-    o << ' ' << it->first->name() << ':' << it->first->opcode() << ':' << it->second.counter[0]
-      << ':' << it->second.counter[1];
+  {
+    o << ' ' << it->first->name() << ':';
+    o.raw << it->first->opcode() << ':';
+    o << it->second.counter[0] << ':' << it->second.counter[1];
+  }
   o << '\n';
   maybe_stall(callbacks, stall_cb_at);
 }
 
-template<class T> void final_dump(std::ostream &o, const summary<T> &s)
+template<class T> void final_dump(sink &o, const summary<T> &s)
 {
   o << "FINAL gen " << s.gen << " last_imp " << s.last_imp << " crossovers " << s.crossovers
-    << " mutations " << s.mutations << "\nBEST ";
-  s.best.solution.save(o);
-  o << "FIT ";
-  s.best.score.fitness.save(o);
-  o << " acc " << verif::bits(s.best.score.accuracy) << " sol " << s.best.score.is_solution << '\n';
+    << " mutations " << s.mutations << "\n";
+  dump_best(o, s);
 }
 
 std::string regression_data()
@@ -231,79 +301,263 @@ evaluator_id evaluator_of(const std::string &n)
   return evaluator_id::undefined;
 }
 
-template<class T, template<class> class ES>
-void run_src(std::ostream &o, unsigned gens, unsigned inds, bool classification, int validator, const params &p)
+// ---- what one execution does -------------------------------------------------------------------------
+enum class act { search, ckpt_save, ckpt_load };
+
+struct job
 {
+  std::string cfg;
+  unsigned seed = 0, gens = 0, inds = 0;
+  params p;
+  act what = act::search;
+  unsigned ckpt_gen = 0;       // ckpt_save: the checkpoint is written after this generation
+  unsigned long long paint = 0;   // ckpt_load: stack pattern
+  bool work = false;           // ckpt_load: other work before the restore
+  std::string file;            // checkpoint file
+};
+
+// gives the harness what `search::run` uses: the tuned environment and the training evaluator
+template<class S> struct open_search : S
+{
+  using S::S;
+  void tune() { this->tune_parameters(); }
+  auto &eva() { return *this->eva1_; }
+};
+
+// dead stack content is not an input of the computation: fill the region the next calls will use
+__attribute__((noinline)) unsigned paint_stack(unsigned long long pattern)
+{
+  volatile std::uint64_t buffer[40 * 1024];      // 320 KiB
+  verif::splitmix r(pattern);
+  for (auto &b : buffer)
+    b = pattern < 256 ? pattern * 0x0101010101010101ull : r.next();
+  unsigned sum(0);
+  for (auto &b : buffer) sum += static_cast<unsigned>(b);
+  return sum;
+}
+
+void interlude(std::uint64_t k, bool new_symbols);
+
+// ---- checkpoint / restart: the harness' mirror of evolution<T, ES>::run ---------------------------------
+// (evolution builds its population from the problem and has no way to resume; the public pieces are the
+//  population, the summary, the strategy objects and random::engine.  `MIRROR same` ties this loop to the real one
+//  on every checkpoint job.)
+template<class T, template<class> class ES>
+struct legs
+{
+  static bool stop(const population<T> &pop, const summary<T> &st, const ES<T> &es)
+  {
+    if (st.gen > pop.get_problem().env.generations) return true;
+    return es.stop_condition();
+  }
+
+  // generations from st.gen on; after generation `ckpt_gen` the state is appended to *ckpt
+  static void loop(sink &o, population<T> &pop, summary<T> &st, ES<T> &es, evaluator<T> &eva, bool resumed,
+                   long ckpt_gen, std::string *ckpt)
+  {
+    if (resumed) ++st.gen;
+    for (; !stop(pop, st, es); ++st.gen)
+    {
+      analyzer<T> az;
+      for (auto it(pop.begin()), end(pop.end()); it != end; ++it)
+        az.add(*it, eva(*it), it.layer());
+      st.az = az;
+
+      for (unsigned k(0); k < pop.individuals(); ++k)
+      {
+        auto parents(es.selection.run());
+        auto off(es.recombination.run(parents));
+        es.replacement.run(parents, off, &st);
+      }
+      es.after_generation();
+      dump(o, pop, st);
+
+      if (ckpt && static_cast<long>(st.gen) == ckpt_gen)
+      {
+        std::ostringstream c;
+        pop.save(c);
+        st.save(c);
+        c << random::engine << '\n';
+        *ckpt = c.str();
+      }
+    }
+    final_dump(o, st);
+    std::ostringstream e;
+    e << random::engine;
+    o << "ENGINE " << e.str() << '\n';
+  }
+
+  template<class S> static int run(sink &o, const job &j, problem &prob, S &s)
+  {
+    s.tune();
+    if (j.what == act::ckpt_save)
+    {
+      sink real;
+      random::seed(j.seed);
+      {
+        evolution<T, ES> evo(prob, s.eva());
+        evo.after_generation([&real](const population<T> &pop, const summary<T> &st) { dump(real, pop, st); });
+        final_dump(real, evo.run(0));
+        std::ostringstream e;
+        e << random::engine;
+        real << "ENGINE " << e.str() << '\n';
+      }
+      s.eva().clear();
+      random::seed(j.seed);
+      std::string ckpt;
+      {
+        population<T> pop(prob);
+        summary<T> st;
+        ES<T> es(pop, s.eva(), &st);
+        st.clear();
+        st.best.solution = pop[{0, 0}];
+        st.best.score.fitness = s.eva()(st.best.solution);
+        es.init();
+        st.gen = 0;
+        loop(o, pop, st, es, s.eva(), false, j.ckpt_gen, &ckpt);
+      }
+      const bool same(real.raw.str() == o.raw.str());
+      std::cerr << (same ? "MIRROR same\n" : "MIRROR different\n");
+      if (!same) std::cerr << "REAL\n" << real.raw.str() << "MIRRORED\n" << o.raw.str() << "END\n";
+      if (ckpt.empty())
+        std::cerr << "CHECKPOINT not-reached\n";
+      else
+      {
+        std::ofstream f(j.file);
+        f << ckpt;
+        f.close();
+        std::cerr << "CHECKPOINT written gen=" << j.ckpt_gen << " bytes=" << ckpt.size() << (f ? "" : " FAILED")
+                  << '\n';
+      }
+      return 0;
+    }
+
+    // ---- restart
+    std::ifstream in(j.file);
+    if (!in) { std::cerr << "CHECKPOINT absent\n"; return 3; }
+    random::seed(j.seed ^ 0x5bd1e995u);          // a restarted process knows nothing about the first leg's engine
+    if (j.work) interlude(j.paint + 17, false);  // the problem's symbols exist already: their opcodes are unchanged
+    paint_stack(j.paint);
+    population<T> pop(prob);
+    paint_stack(j.paint);
+    if (!pop.load(in, prob)) { std::cerr << "CHECKPOINT population::load failed\n"; return 3; }
+    summary<T> st;
+    paint_stack(j.paint ^ 0xff);
+    if (!st.load(in, prob)) { std::cerr << "CHECKPOINT summary::load failed\n"; return 3; }
+    if (!(in >> random::engine)) { std::cerr << "CHECKPOINT engine failed\n"; return 3; }
+    std::cerr << "CHECKPOINT loaded gen=" << st.gen << '\n';
+    ES<T> es(pop, s.eva(), &st);
+    loop(o, pop, st, es, s.eva(), true, -1, nullptr);
+    return 0;
+  }
+};
+
+template<class T, template<class> class ES>
+int run_src(sink &o, const job &j, bool classification, int validator)
+{
+  const params &p(j.p);
   std::istringstream is(classification ? classification_data() : regression_data());
   src_problem prob(is);
   prob.setup_symbols();
-  prob.env.individuals = inds;
-  prob.env.generations = gens;
+  prob.env.individuals = j.inds;
+  prob.env.generations = j.gens;
   prob.env.layers = 2;
   prob.env.mep.code_length = 24;
   if (validator == 1) prob.env.dss = 2;
   if (validator == 2) prob.env.validation_percentage = 30;
   apply(prob.env, p);
 
+  if (j.what != act::search)
+  {
+    // src_search is final: the checkpoint legs use its base class with the evaluator src_search would install
+    // (layers / individuals are explicit here, so src_search::tune_parameters adds nothing to search's)
+    if (validator) return 2;
+    open_search<search<T, ES>> s(prob);
+    const auto id(p.has("eva") ? evaluator_of(p.s("eva"))
+                               : classification ? evaluator_id::gaussian : evaluator_id::rmae);
+    switch (id)
+    {
+    case evaluator_id::count: s.template training_evaluator<count_evaluator<T>>(prob.data()); break;
+    case evaluator_id::mae: s.template training_evaluator<mae_evaluator<T>>(prob.data()); break;
+    case evaluator_id::rmae: s.template training_evaluator<rmae_evaluator<T>>(prob.data()); break;
+    case evaluator_id::mse: s.template training_evaluator<mse_evaluator<T>>(prob.data()); break;
+    case evaluator_id::gaussian: s.template training_evaluator<gaussian_evaluator<T>>(prob.data()); break;
+    case evaluator_id::dyn_slot: s.template training_evaluator<dyn_slot_evaluator<T>>(prob.data(), 10u); break;
+    default: return 2;
+    }
+    return legs<T, ES>::run(o, j, prob, s);
+  }
   src_search<T, ES> s(prob);
   if (p.has("eva")) s.evaluator(evaluator_of(p.s("eva")));
   if (validator == 1) s.validation_strategy(validator_id::dss);
   if (validator == 2) s.validation_strategy(validator_id::holdout);
   s.after_generation([&o](const population<T> &pop, const summary<T> &st) { dump(o, pop, st); });
   final_dump(o, s.run(p.runs()));
+  return 0;
 }
 
-template<template<class> class ES>
-void run_ga(std::ostream &o, unsigned gens, unsigned inds, const params &p)
+constexpr int QUEENS = 8;
+struct queens_f
 {
-  const int N(8);
-  ga_problem prob(N, {0, N});
-  prob.env.individuals = inds;
-  prob.env.generations = gens;
-  prob.env.layers = 2;
-  apply(prob.env, p);
-
-  auto f = [](const i_ga &x) -> fitness_t
+  fitness_t operator()(const i_ga &x) const
   {
     maybe_stall(evaluations, stall_eval_at);
     double attacks(0);
-    for (int q(0); q < N - 1; ++q)
-      for (int i(q + 1); i < N; ++i)
+    for (int q(0); q < QUEENS - 1; ++q)
+      for (int i(q + 1); i < QUEENS; ++i)
         if (x[i] == x[q] || std::abs(x[i] - x[q]) == i - q)
           ++attacks;
     return {-attacks};
-  };
-
-  basic_ga_search<i_ga, ES, decltype(f)> s(prob, f);
-  s.after_generation([&o](const population<i_ga> &pop, const summary<i_ga> &st) { dump(o, pop, st); });
-  final_dump(o, s.run(p.runs()));
-}
-
-void run_de(std::ostream &o, unsigned gens, unsigned inds, const params &p)
+  }
+};
+struct rastrigin_f
 {
-  de_problem prob(4, {-5.12, 5.12});
-  prob.env.individuals = inds;
-  prob.env.generations = gens;
-  apply(prob.env, p);
-
-  auto f = [](const std::vector<double> &x)
+  double operator()(const std::vector<double> &x) const
   {
     maybe_stall(evaluations, stall_eval_at);
     double r(10.0 * x.size());
     for (auto xi : x) r += xi * xi - 10.0 * std::cos(2 * 3.141592653589793 * xi);
     return -r;
-  };
+  }
+};
 
-  de_search<decltype(f)> s(prob, f);
-  s.after_generation([&o](const population<i_de> &pop, const summary<i_de> &st) { dump(o, pop, st); });
-  final_dump(o, s.run(p.runs()));
+template<template<class> class ES>
+int run_ga(sink &o, const job &j)
+{
+  ga_problem prob(QUEENS, {0, QUEENS});
+  prob.env.individuals = j.inds;
+  prob.env.generations = j.gens;
+  prob.env.layers = 2;
+  apply(prob.env, j.p);
+
+  open_search<basic_ga_search<i_ga, ES, queens_f>> s(prob, queens_f());
+  if (j.what != act::search)
+    return legs<i_ga, ES>::run(o, j, prob, s);
+  s.after_generation([&o](const population<i_ga> &pop, const summary<i_ga> &st) { dump(o, pop, st); });
+  final_dump(o, s.run(j.p.runs()));
+  return 0;
 }
 
-bool one_run(std::ostream &o, const std::string &cfg, unsigned seed, unsigned gens, unsigned inds,
-             const params &p)
+int run_de(sink &o, const job &j)
+{
+  de_problem prob(4, {-5.12, 5.12});
+  prob.env.individuals = j.inds;
+  prob.env.generations = j.gens;
+  apply(prob.env, j.p);
+
+  open_search<de_search<rastrigin_f>> s(prob, rastrigin_f());
+  if (j.what != act::search)
+    return legs<i_de, de_es>::run(o, j, prob, s);
+  s.after_generation([&o](const population<i_de> &pop, const summary<i_de> &st) { dump(o, pop, st); });
+  final_dump(o, s.run(j.p.runs()));
+  return 0;
+}
+
+// -> 0 done, 2 bad configuration, 3 checkpoint machinery failed
+int one_run(sink &o, const job &j)
 {
   std::vector<std::string> part;
-  std::istringstream ss(cfg);
+  std::istringstream ss(j.cfg);
   for (std::string w; std::getline(ss, w, '-');) part.push_back(w);
   const std::string kind(part.empty() ? "" : part[0]);
   bool alps(false);
@@ -312,28 +566,75 @@ bool one_run(std::ostream &o, const std::string &cfg, unsigned seed, unsigned ge
     if (part[i] == "alps") alps = true;
     else if (part[i] == "dss") validator = 1;
     else if (part[i] == "holdout") validator = 2;
-    else if (part[i] != "std") return false;
+    else if (part[i] != "std") return 2;
 
-  random::seed(seed);
+  int rc(2);
+  random::seed(j.seed);
   if (kind == "mep" || kind == "cls")
-  {
-    if (alps) run_src<i_mep, alps_es>(o, gens, inds, kind == "cls", validator, p);
-    else run_src<i_mep, std_es>(o, gens, inds, kind == "cls", validator, p);
-  }
+    rc = alps ? run_src<i_mep, alps_es>(o, j, kind == "cls", validator)
+              : run_src<i_mep, std_es>(o, j, kind == "cls", validator);
   else if (kind == "team")
-  {
-    if (alps) run_src<team<i_mep>, alps_es>(o, gens, inds, false, validator, p);
-    else run_src<team<i_mep>, std_es>(o, gens, inds, false, validator, p);
-  }
+    rc = alps ? run_src<team<i_mep>, alps_es>(o, j, false, validator)
+              : run_src<team<i_mep>, std_es>(o, j, false, validator);
   else if (kind == "ga")
+    rc = alps ? run_ga<alps_es>(o, j) : run_ga<std_es>(o, j);
+  else if (kind == "de") rc = run_de(o, j);
+  if (rc == 0) dump_logs(o, j.p);
+  return rc;
+}
+
+// ---- other work between two executions in one process ------------------------------------------------
+// Everything a long-lived process may have done before: heap churn, more symbols created (the opcode counter
+// moves by a varying amount), searches of every kind of individual over BIGGER programs / populations than the
+// job's (containers and caches with static or thread storage grow), a painted stack.
+void interlude(std::uint64_t k, bool new_symbols)
+{
+  verif::splitmix r(k);
+  heap_noise(r.next() | 1);
+  if (new_symbols)
+    for (unsigned n(1 + r.below(3)); n; --n)
+    {
+      std::ostringstream d;
+      const unsigned cols(2 + r.below(5));
+      for (int i(0); i < 6; ++i)
+      {
+        d << i * 0.5;
+        for (unsigned c(0); c < cols; ++c) d << ',' << (i + 1.0) * (c + 2);
+        d << '\n';
+      }
+      std::istringstream is(d.str());
+      src_problem extra(is);
+      extra.setup_symbols();
+    }
+  const char *cfgs[] = {"mep-std", "mep-alps", "team-std", "cls-alps", "ga-std", "de"};
+  for (const char *c : cfgs)
   {
-    if (alps) run_ga<alps_es>(o, gens, inds, p);
-    else run_ga<std_es>(o, gens, inds, p);
+    job w;
+    w.cfg = c;
+    w.seed = static_cast<unsigned>(r.next());
+    w.gens = 2 + r.below(3);
+    w.inds = 30 + r.below(30);
+    w.p = params("code=" + std::to_string(60 + 20 * r.below(4)) + ",runs=1,brood=" + std::to_string(1 + r.below(3)));
+    sink waste;
+    one_run(waste, w);
   }
-  else if (kind == "de") run_de(o, gens, inds, p);
-  else return false;
-  dump_logs(o, p);
-  return true;
+  heap_noise(r.next() | 1);
+  paint_stack(r.next());
+}
+
+std::vector<std::string> split(const std::string &s, char sep, std::size_t max_parts)
+{
+  std::vector<std::string> out;
+  std::size_t p(0);
+  while (out.size() + 1 < max_parts)
+  {
+    const auto q(s.find(sep, p));
+    if (q == std::string::npos) break;
+    out.push_back(s.substr(p, q - p));
+    p = q + 1;
+  }
+  out.push_back(s.substr(p));
+  return out;
 }
 
 }  // namespace
@@ -346,12 +647,17 @@ int main(int argc, char *argv[])
     std::cout << "usage\n";
     return 2;
   }
-  const std::string cfg(argv[1]);
-  const unsigned seed(std::stoul(argv[2])), gens(std::stoul(argv[3])), inds(std::stoul(argv[4]));
+  job j;
+  j.cfg = argv[1];
+  j.seed = std::stoul(argv[2]);
+  j.gens = std::stoul(argv[3]);
+  j.inds = std::stoul(argv[4]);
   heap_noise(std::stoull(argv[5]));
   const std::string mode(argc > 6 ? argv[6] : "");
-  const params p(argc > 7 ? argv[7] : "");
-  const bool repeat(mode == "repeat");
+  j.p = params(argc > 7 ? argv[7] : "");
+  const bool repeat(mode.rfind("repeat", 0) == 0);
+  std::uint64_t repeat_k(j.seed + 1);
+  if (repeat && mode.size() > 7) repeat_k = std::stoull(mode.substr(7));
   if (mode.rfind("stall-", 0) == 0)
   {
     const auto p1(mode.find(':')), p2(mode.find(':', p1 + 1));
@@ -360,24 +666,46 @@ int main(int argc, char *argv[])
     stall_ms = std::stoul(mode.substr(p2 + 1));
     (mode.rfind("stall-cb", 0) == 0 ? stall_cb_at : stall_eval_at) = n;
   }
-  report_files(p);
+  if (mode.rfind("ckpt-save:", 0) == 0)
+  {
+    const auto f(split(mode, ':', 3));
+    if (f.size() != 3) { std::cout << "usage\n"; return 2; }
+    j.what = act::ckpt_save;
+    j.ckpt_gen = std::stoul(f[1]);
+    j.file = f[2];
+  }
+  if (mode.rfind("ckpt-load:", 0) == 0)
+  {
+    const auto f(split(mode, ':', 4));
+    if (f.size() != 4) { std::cout << "usage\n"; return 2; }
+    j.what = act::ckpt_load;
+    j.paint = std::stoull(f[1]);
+    j.work = f[2] == "1";
+    j.file = f[3];
+  }
+  if (repeat && j.p.has("logs")) { std::cout << "usage\n"; return 2; }   // the second execution needs an empty directory
+  report_files(j.p);
 
-  std::ostringstream a;
-  if (!one_run(a, cfg, seed, gens, inds, p))
+  sink a;
+  const int rc(one_run(a, j));
+  if (rc == 2)
   {
     std::cout << "bad-config\n";
     return 2;
   }
-  std::cout << a.str();
+  std::cout << a.raw.str();
+  if (rc) return rc;
   if (stall_cb_at >= callbacks || stall_eval_at >= evaluations)
     std::cout << "STALL-NOT-REACHED\n";    // the perturbation did not happen: the check must know
   if (repeat)
   {
-    std::ostringstream b;
-    one_run(b, cfg, seed, gens, inds, p);
-    std::cout << (a.str() == b.str() ? "REPEAT same\n" : "REPEAT different\n");
-    if (a.str() != b.str())
-      std::cout << "SECOND\n" << b.str();
+    interlude(repeat_k, true);
+    sink b;
+    one_run(b, j);
+    const bool same(a.canon.str() == b.canon.str());
+    std::cout << (same ? "REPEAT same\n" : "REPEAT different\n");
+    if (!same)
+      std::cout << "FIRST\n" << a.canon.str() << "SECOND\n" << b.canon.str();
   }
   return keep->size() > 100000 ? 1 : 0;
 }
